@@ -7,6 +7,9 @@ use std::collections::{BTreeMap, HashMap, HashSet, VecDeque};
 use std::fmt::Write as _;
 use std::io::Write as _;
 
+/// Upper bound for the size of the hash sets kept for evidence (memory).
+pub const SET_CAP: usize = 3_000_000;
+
 /// One event of a history. `k` is the driver specific kind, `a`/`b` small
 /// arguments (slot, flavour, amount …).
 #[derive(Clone, Copy, Debug, PartialEq, Eq, Hash)]
@@ -66,6 +69,8 @@ pub struct Ctx {
     /// number of new abstract states discovered in each quarter of the run
     pub new_states_by_quarter: [u64; 4],
     pub track_distinct: bool,
+    /// named sets of hashes (e.g. distinct heap shapes); sizes are reported
+    pub aux_sets: BTreeMap<&'static str, HashSet<u64>>,
 }
 
 impl Ctx {
@@ -84,6 +89,7 @@ impl Ctx {
             max_queue: 0,
             new_states_by_quarter: [0; 4],
             track_distinct: true,
+            aux_sets: BTreeMap::new(),
         }
     }
 
@@ -105,7 +111,7 @@ impl Ctx {
         if nonvac {
             ps.nonvac += 1;
             st.nonvac += 1;
-            if self.track_distinct {
+            if self.track_distinct && ps.distinct.len() < SET_CAP {
                 let key = mix(mix(self.cur_fp, self.cur_ev.code()), hash_str(pred));
                 ps.distinct.insert(key);
             }
@@ -571,11 +577,13 @@ pub fn run_random<D: Driver>(opts: &RunOpts) -> Outcome {
                 break;
             }
             let nfp = d.fp();
-            if ctx.states.insert(nfp) {
+            if ctx.states.len() < SET_CAP && ctx.states.insert(nfp) {
                 let q = ((ctx.events / quarter) as usize).min(3);
                 ctx.new_states_by_quarter[q] += 1;
             }
-            ctx.transitions.insert(mix(fp, ev.code()));
+            if ctx.transitions.len() < SET_CAP {
+                ctx.transitions.insert(mix(fp, ev.code()));
+            }
         }
         if failed {
             // the instance may be corrupt: do not run its destructors
@@ -879,6 +887,12 @@ pub fn summary_json<D: Driver>(opts: &RunOpts, o: &Outcome, wall_ms: u64) -> Str
     j.begin_obj();
     for (k, v) in &o.ctx.counters {
         j.kv_num(k, *v);
+    }
+    j.end_obj();
+    j.key("aux_sets");
+    j.begin_obj();
+    for (k, v) in &o.ctx.aux_sets {
+        j.kv_num(k, v.len() as u64);
     }
     j.end_obj();
     j.key("violations");
